@@ -244,6 +244,33 @@ def main(prop, tier, seed, replay_path=None):
                         sessions.append((deepc[j['ci'] - 1] if j['ci'] else None, h))
             mc['distinct'] += mcB['distinct']
             mc['generated'] += mcB['generated']
+        # third exhaustive stage: every sequence of three move_state calls on 4-state structures
+        pool5 = [c for c in gc.family_f1(5) if c['n'] == 5 and all(k in ('compound', 'basic') for k in c['kind'])
+                 and c['parent'].count(1) >= 3]
+        rng.shuffle(pool5)
+        mvc = []
+        for c in pool5[:3 if quick else 20]:
+            c = json.loads(json.dumps(c))
+            c['trans'] = []
+            mvc.append(c)
+        if mvc:
+            dC = tlc.workdir('C16_model_moves')
+            with open(os.path.join(dC, 'ChartsData.tla'), 'w') as f:
+                f.write(gc.tla_charts_module('ChartsData', mvc))
+            tlc.write_mc(dC, 'ModelMC', dict(consts, MaxLen=3, Ops={'move_state'}), view='View',
+                         constraints=['Bounded'], action_constraints=['Emit'], invariants=['InvSound'],
+                         props=['FailedUnchanged'])
+            mcC = tlc.run(dC, timeout=3000)
+            if mcC['error'] or mcC['violated']:
+                print('MACHINERY-FAILURE property=C16: design check (moves stage) failed\n' + (mcC['error'] or mcC['out'][-2000:]))
+                return 2
+            for j in mcC['json']:
+                if 'hist' in j:
+                    h = j['hist'] if isinstance(j['hist'], list) else []
+                    if len(h) == 3:
+                        sessions.append((mvc[j['ci'] - 1] if j['ci'] else None, h))
+            mc['distinct'] += mcC['distinct']
+            mc['generated'] += mcC['generated']
         nedges = len(sessions)
         deep = None
         if not quick:   # deeper design check without emission
